@@ -131,27 +131,37 @@ Trails(G, rp, row, a, rs, n) ==
     (IF n = 0 THEN {}
      ELSE UNION {Trails(G, rp, row, hb[2], Append(rs, hb[1]), n - 1) :
                     hb \in {x \in Hops(G, rp, a, row) : \A i \in DOMAIN rs : rs[i] # x[1]}})
+\* known deviation KF_C01_VarLengthReachability: a variable-length pattern is answered by a breadth-first search
+\* that emits every node whose DISTANCE from the source lies in lo..hi exactly once (node reachability), instead of
+\* one match per trail; the relationships it walked are not remembered for relationship isomorphism
+RECURSIVE Bfs(_, _, _, _, _, _, _)
+Bfs(G, rp, row, frontier, visited, k, hi) ==
+    IF k > hi \/ frontier = {} THEN {}
+    ELSE LET next == {hb[2] : hb \in UNION {Hops(G, rp, x, row) : x \in frontier}} \ visited IN
+         {<<b, k>> : b \in frontier} \cup Bfs(G, rp, row, next, visited \cup next, k + 1, hi)
 \* extensions of a walk ending in a over one relationship pattern: [end, r] with r the sequence of relationships used
-SegExt(G, rp, row, a) ==
-    IF rp.vl THEN {t \in Trails(G, rp, row, a, <<>>, rp.hi) : Len(t.r) >= rp.lo}
+SegExt(G, rp, row, a, D) ==
+    IF rp.vl /\ "KF_C01_VarLengthReachability" \in D THEN
+        {[end |-> bk[1], r |-> <<>>] : bk \in {x \in Bfs(G, rp, row, {a}, {a}, 0, rp.hi) : x[2] >= rp.lo}}
+    ELSE IF rp.vl THEN {t \in Trails(G, rp, row, a, <<>>, rp.hi) : Len(t.r) >= rp.lo}
     ELSE {[end |-> hb[2], r |-> <<hb[1]>>] : hb \in Hops(G, rp, a, row)}
 \* u = index of the node position (1 = start) that is matched with the union deviation, 0 = none
-RECURSIVE WalksFrom(_, _, _, _, _, _)
-WalksFrom(G, path, row, w, i, u) ==
+RECURSIVE WalksFrom(_, _, _, _, _, _, _)
+WalksFrom(G, path, row, w, i, u, D) ==
     IF i > Len(path.segs) THEN {w}
     ELSE LET seg == path.segs[i]
              a == w.ns[Len(w.ns)]
-         IN UNION {WalksFrom(G, path, row, [ns |-> Append(w.ns, x.end), rs |-> Append(w.rs, x.r)], i + 1, u) :
-                      x \in {y \in SegExt(G, seg.rel, row, a) : NodeOK(G, seg.node, y.end, row, u = i + 1)}}
-PathWalks(G, path, row, u) ==
-    UNION {WalksFrom(G, path, row, [ns |-> <<h>>, rs |-> <<>>], 1, u) :
+         IN UNION {WalksFrom(G, path, row, [ns |-> Append(w.ns, x.end), rs |-> Append(w.rs, x.r)], i + 1, u, D) :
+                      x \in {y \in SegExt(G, seg.rel, row, a, D) : NodeOK(G, seg.node, y.end, row, u = i + 1)}}
+PathWalks(G, path, row, u, D) ==
+    UNION {WalksFrom(G, path, row, [ns |-> <<h>>, rs |-> <<>>], 1, u, D) :
               h \in {h \in LiveN(G) : NodeOK(G, path.start, h, row, u = 1)}}
 \* shortestPath((a)-[*lo..hi]-(b)): one shortest trail per pair of end points (relationship list not observable)
 ShortestOnly(ws) ==
     {w \in ws : \A v \in ws : (v.ns[1] = w.ns[1] /\ v.ns[Len(v.ns)] = w.ns[Len(w.ns)]) => Len(w.rs[1]) <= Len(v.rs[1])}
-PathMatches(G, path, row, u) ==
-    IF path.sp = "none" THEN PathWalks(G, path, row, u)
-    ELSE LET S == ShortestOnly(PathWalks(G, path, row, u)) IN
+PathMatches(G, path, row, u, D) ==
+    IF path.sp = "none" THEN PathWalks(G, path, row, u, D)
+    ELSE LET S == ShortestOnly(PathWalks(G, path, row, u, D)) IN
          IF path.sp = "all" THEN S
          ELSE {w \in S : w = CHOOSE v \in S : v.ns[1] = w.ns[1] /\ v.ns[Len(v.ns)] = w.ns[Len(w.ns)]}
 
@@ -165,22 +175,29 @@ PathVars(path) == ({NodePatAt(path, j).x : j \in 1..(Len(path.segs) + 1)} \cup {
 ClauseVars(c) == UNION {PathVars(c.paths[i]) : i \in DOMAIN c.paths}
 
 \* us[i] = union-deviation position of path i
-RECURSIVE Combos(_, _, _, _, _)
-Combos(G, paths, row, i, us) ==
+RECURSIVE Combos(_, _, _, _, _, _)
+Combos(G, paths, row, i, us, D) ==
     IF i > Len(paths) THEN {<<>>}
-    ELSE {<<w>> \o rest : w \in PathMatches(G, paths[i], row, us[i]), rest \in Combos(G, paths, row, i + 1, us)}
-\* rows extending `row` by one match of the MATCH clause c (before its WHERE)
-MatchExt(G, c, row, us) ==
-    LET ok(cb) ==
-            LET P == UNION {WalkPairs(c.paths[i], cb[i]) : i \in DOMAIN cb}
+    ELSE {<<w>> \o rest : w \in PathMatches(G, paths[i], row, us[i], D), rest \in Combos(G, paths, row, i + 1, us, D)}
+\* the matches of the MATCH clause c that extend `row` (before its WHERE), as a bag: a row -> the number of
+\* distinct assignments (anonymous nodes and relationships count) that produce it
+\* known deviation KF_C01_RelIsoPerPathOnly: the comma-separated paths of one MATCH are matched
+\* independently and joined, so relationship isomorphism is enforced inside each path only
+MatchExt(G, c, row, us, D) ==
+    LET perpath == "KF_C01_RelIsoPerPathOnly" \in D
+        pairs(cb) == UNION {WalkPairs(c.paths[i], cb[i]) : i \in DOMAIN cb}
+        ok(cb) ==
+            LET P == pairs(cb)
                 rl == ConcatAll([i \in DOMAIN cb |-> ConcatAll(cb[i].rs)])
-            IN /\ Cardinality(Range(rl)) = Len(rl)                    \* relationship isomorphism
+            IN /\ IF perpath THEN \A i \in DOMAIN cb : LET r1 == ConcatAll(cb[i].rs) IN Cardinality(Range(r1)) = Len(r1)
+                  ELSE Cardinality(Range(rl)) = Len(rl)                \* relationship isomorphism
                /\ \A a \in P, b \in P : a[1] = b[1] => a[2] = b[2]
                /\ \A a \in P : a[1] \in DOMAIN row => row[a[1]] = a[2]
         mk(cb) ==
-            LET P == UNION {WalkPairs(c.paths[i], cb[i]) : i \in DOMAIN cb} IN
+            LET P == pairs(cb) IN
             [x \in DOMAIN row \cup {a[1] : a \in P} |-> IF x \in DOMAIN row THEN row[x] ELSE (CHOOSE a \in P : a[1] = x)[2]]
-    IN {mk(cb) : cb \in {cb \in Combos(G, c.paths, row, 1, us) : ok(cb)}}
+        good == {cb \in Combos(G, c.paths, row, 1, us, D) : ok(cb)}
+    IN [m \in {mk(cb) : cb \in good} |-> Cardinality({cb \in good : mk(cb) = m})]
 
 \* ------------------------------------------------------------------ tables: [err |-> BOOLEAN, bag |-> [row -> count]]
 ErrT == [err |-> TRUE, bag |-> EmptyBag]
@@ -194,19 +211,21 @@ UnionChoices(c, D) ==
                    ij[2] <= Len(c.paths[ij[1]].segs) + 1 /\ Len(NodePatAt(c.paths[ij[1]], ij[2]).labels) >= 2}
     IN IF "KF_C01_MultiLabelUnion" \notin D THEN {none}
        ELSE {none} \cup {[none EXCEPT ![ij[1]] = ij[2]] : ij \in pos}
-ApplyMatch(G, c, T, us) ==
+ApplyMatch(G, c, T, us, D) ==
     IF T.err THEN T
     ELSE LET B == T.bag
-             all(r) == MatchExt(G, c, r, us)
-             tr(r) == [m \in all(r) |-> Where3(c.where, m, G)]
-             kept(r) == {m \in all(r) : tr(r)[m] = "T"}
+             all == [r \in DOMAIN B |-> MatchExt(G, c, r, us, D)]
+             tr == [r \in DOMAIN B |-> [m \in DOMAIN all[r] |-> Where3(c.where, m, G)]]
+             kept(r) == {m \in DOMAIN all[r] : tr[r][m] = "T"}
              nullrow(r) == [x \in DOMAIN r \cup ClauseVars(c) |-> IF x \in DOMAIN r THEN r[x] ELSE VNull]
-             ext(r) == IF c.opt /\ kept(r) = {} THEN {nullrow(r)} ELSE kept(r)
-         IN IF \E r \in DOMAIN B : \E m \in all(r) : tr(r)[m] = "E" THEN ErrT
+             isnull(r) == c.opt /\ kept(r) = {}
+             ext(r) == IF isnull(r) THEN {nullrow(r)} ELSE kept(r)
+         IN IF \E r \in DOMAIN B : \E m \in DOMAIN all[r] : tr[r][m] = "E" THEN ErrT
             ELSE IF DOMAIN B = {} THEN T
             ELSE LET old == DOMAIN (CHOOSE r \in DOMAIN B : TRUE)
                      Dm == UNION {ext(r) : r \in DOMAIN B}
-                 IN OkT([m \in Dm |-> B[Restrict(m, old)]])
+                     mult(m) == LET r == Restrict(m, old) IN B[r] * (IF isnull(r) THEN 1 ELSE all[r][m])
+                 IN OkT([m \in Dm |-> mult(m)])
 ApplyUnwind(G, c, T) ==
     IF T.err THEN T
     ELSE LET B == T.bag
@@ -223,10 +242,13 @@ ApplyUnwind(G, c, T) ==
 ColName == <<"#1", "#2", "#3", "#4", "#5", "#6">>
 Names(c) == [i \in DOMAIN c.items |-> IF c.items[i].as # "" THEN c.items[i].as ELSE ColName[i]]
 IsAgg(x) == x.e \in {"agg", "cstar"}
-RowEquiv(a, b) == DOMAIN a = DOMAIN b /\ \A x \in DOMAIN a : Equiv(a[x], b[x])
+\* known deviation KF_C01_KeysCompareStructurally (st = TRUE): DISTINCT, grouping keys, aggregate DISTINCT and UNION
+\* compare values by representation, so Integer 2 and Float 2.0 (equal, hence equivalent, in openCypher) stay apart
+EquivD(a, b, st) == IF st THEN a = b ELSE Equiv(a, b)
+RowEquiv(a, b, st) == DOMAIN a = DOMAIN b /\ \A x \in DOMAIN a : EquivD(a[x], b[x], st)
 \* one representative per equivalence class
-Reps(S) == {o \in S : o = CHOOSE o2 \in {o3 \in S : RowEquiv(o3, o)} : TRUE}
-ValReps(S) == {o \in S : o = CHOOSE o2 \in {o3 \in S : Equiv(o3, o)} : TRUE}
+Reps(S, st) == {o \in S : o = CHOOSE o2 \in {o3 \in S : RowEquiv(o3, o, st)} : TRUE}
+ValReps(S, st) == {o \in S : o = CHOOSE o2 \in {o3 \in S : EquivD(o3, o, st)} : TRUE}
 \* a total order on values used only to print bags of values canonically (collect)
 TotLe(a, b) == OrdLt(a, b) \/ (OrdEq(a, b) /\ (a = b \/ a.k = "I"))
 RECURSIVE SortBag(_)
@@ -240,13 +262,13 @@ RECURSIVE CanonV(_)
 CanonV(v) == IF v.k = "L" THEN VList(SortBag(SeqBag([i \in DOMAIN v.l |-> CanonV(v.l[i])]))) ELSE v
 
 \* value of aggregate x over the group g (set of rows) of bag B
-AggVal(x, g, B, G) ==
+AggVal(x, g, B, G, st) ==
     IF x.e = "cstar" THEN VInt(WSum(g, B))
     ELSE LET val == [r \in g |-> EvalX(x.a, r, G)]
              nn == {r \in g : val[r].k # "N"}
              \* value -> multiplicity (DISTINCT: one per equivalence class)
              vals == {val[r] : r \in nn}
-             wb == IF x.d THEN [v \in ValReps(vals) |-> 1] ELSE [v \in vals |-> WSum({r \in nn : val[r] = v}, B)]
+             wb == IF x.d THEN [v \in ValReps(vals, st) |-> 1] ELSE [v \in vals |-> WSum({r \in nn : val[r] = v}, B)]
          IN IF \E r \in g : IsErr(val[r]) THEN VErr
             ELSE CASE x.f = "count" -> VInt(WSum(DOMAIN wb, wb))
                    [] x.f = "sum" ->
@@ -257,7 +279,7 @@ AggVal(x, g, B, G) ==
                    [] x.f = "max" -> IF DOMAIN wb = {} THEN VNull ELSE CHOOSE v \in DOMAIN wb : \A o \in DOMAIN wb : OrdLe(o, v)
                    [] x.f = "collect" -> VList(SortBag(wb))
 
-Project(G, c, T) ==
+Project(G, c, T, st) ==
     IF T.err THEN T
     ELSE LET B == T.bag
              nm == Names(c)
@@ -268,14 +290,14 @@ Project(G, c, T) ==
              key == [r \in DOMAIN B |-> [n \in keyN |-> EvalX(c.items[idx(n)].e, r, G)]]
          IN IF \E r \in DOMAIN B : \E n \in keyN : IsErr(key[r][n]) THEN ErrT
             ELSE IF aggI = {} THEN
-                    IF c.distinct THEN OkT([o \in Reps({key[r] : r \in DOMAIN B}) |-> 1])
+                    IF c.distinct THEN OkT([o \in Reps({key[r] : r \in DOMAIN B}, st) |-> 1])
                     ELSE OkT(MapBag(B, key))
-            ELSE LET krep == IF keyN = {} THEN {[n \in {} |-> VNull]} ELSE Reps({key[r] : r \in DOMAIN B})
-                     grp(k) == {r \in DOMAIN B : RowEquiv(key[r], k)}
-                     out(k) == [n \in NS |-> IF n \in keyN THEN k[n] ELSE AggVal(c.items[idx(n)].e, grp(k), B, G)]
+            ELSE LET krep == IF keyN = {} THEN {[n \in {} |-> VNull]} ELSE Reps({key[r] : r \in DOMAIN B}, st)
+                     grp(k) == {r \in DOMAIN B : RowEquiv(key[r], k, st)}
+                     out(k) == [n \in NS |-> IF n \in keyN THEN k[n] ELSE AggVal(c.items[idx(n)].e, grp(k), B, G, st)]
                      outs == {out(k) : k \in krep}
                  IN IF \E o \in outs : \E n \in NS : IsErr(o[n]) THEN ErrT
-                    ELSE IF c.distinct THEN OkT([o \in Reps(outs) |-> 1])
+                    ELSE IF c.distinct THEN OkT([o \in Reps(outs, st) |-> 1])
                     ELSE OkT(MapBag([k \in krep |-> 1], [k \in krep |-> out(k)]))
 
 \* ------------------------------------------------------------------ ORDER BY / SKIP / LIMIT
@@ -324,12 +346,12 @@ FilterT(G, x, T) ==
     ELSE LET tr == [r \in DOMAIN T.bag |-> Where3(x, r, G)] IN
          IF \E r \in DOMAIN T.bag : tr[r] = "E" THEN ErrT ELSE OkT(Restrict(T.bag, {r \in DOMAIN T.bag : tr[r] = "T"}))
 ApplyClause(G, c, S, D) ==
-    CASE c.c = "match" -> {ApplyMatch(G, c, T, us) : T \in S, us \in UnionChoices(c, D)}
+    CASE c.c = "match" -> {ApplyMatch(G, c, T, us, D) : T \in S, us \in UnionChoices(c, D)}
       [] c.c = "unwind" -> {ApplyUnwind(G, c, T) : T \in S}
       [] c.c = "with" ->
-            UNION {LET P == Project(G, c, T) IN
+            UNION {LET P == Project(G, c, T, "KF_C01_KeysCompareStructurally" \in D) IN
                    IF P.err THEN {P} ELSE {FilterT(G, c.where, OkT(W)) : W \in Windows(c, P.bag)} : T \in S}
-      [] c.c = "return" -> {Project(G, c, T) : T \in S}      \* its window is judged by the acceptance predicate
+      [] c.c = "return" -> {Project(G, c, T, "KF_C01_KeysCompareStructurally" \in D) : T \in S}      \* its window is judged by the acceptance predicate
 RECURSIVE Pipe(_, _, _, _, _)
 Pipe(G, cs, i, S, D) == IF i > Len(cs) THEN S ELSE Pipe(G, cs, i + 1, ApplyClause(G, cs[i], S, D), D)
 
@@ -339,18 +361,35 @@ Positional(c, T) == IF T.err THEN T ELSE OkT(MapBag(T.bag, [o \in DOMAIN T.bag |
 PartPoss(G, part, D) == {Positional(LastClause(part), T) : T \in Pipe(G, part.clauses, 1, {UnitT}, D)}
 
 BagPlus(A, B) == [o \in DOMAIN A \cup DOMAIN B |-> (IF o \in DOMAIN A THEN A[o] ELSE 0) + (IF o \in DOMAIN B THEN B[o] ELSE 0)]
-SeqEquiv(a, b) == Len(a) = Len(b) /\ \A i \in DOMAIN a : Equiv(a[i], b[i])
-SeqReps(S) == {o \in S : o = CHOOSE o2 \in {o3 \in S : SeqEquiv(o3, o)} : TRUE}
+SeqEquiv(a, b, st) == Len(a) = Len(b) /\ \A i \in DOMAIN a : EquivD(a[i], b[i], st)
+SeqReps(S, st) == {o \in S : o = CHOOSE o2 \in {o3 \in S : SeqEquiv(o3, o, st)} : TRUE}
 RECURSIVE UnionPoss(_, _, _, _)
 UnionPoss(G, q, i, D) ==
     IF i = Len(q.parts) THEN PartPoss(G, q.parts[i], D)
     ELSE {IF A.err \/ B.err THEN ErrT ELSE OkT(BagPlus(A.bag, B.bag)) : A \in PartPoss(G, q.parts[i], D), B \in UnionPoss(G, q, i + 1, D)}
 \* the results openCypher allows: a set of [err, bag]; for a single part the bag is the table BEFORE the final
 \* ORDER BY / SKIP / LIMIT window (see Accept)
+\* known deviation KF_C01_MultiLabelCountMin: `MATCH (n:A:B) RETURN count(n)` (one node pattern with several labels,
+\* no properties, no WHERE, a single plain count) is answered from label statistics with the SMALLEST label count
+CountMinShape(q) ==
+    /\ Len(q.parts) = 1
+    /\ LET cs == q.parts[1].clauses IN
+       /\ Len(cs) = 2 /\ cs[1].c = "match" /\ ~cs[1].opt /\ cs[1].where.e = "none" /\ Len(cs[1].paths) = 1
+       /\ cs[1].paths[1].segs = <<>> /\ cs[1].paths[1].sp = "none"
+       /\ Len(cs[1].paths[1].start.labels) >= 2 /\ cs[1].paths[1].start.props = <<>>
+       /\ cs[2].c = "return" /\ ~cs[2].distinct /\ Len(cs[2].items) = 1 /\ cs[2].order = <<>>
+       /\ LET x == cs[2].items[1].e IN
+          x.e = "cstar" \/ (x.e = "agg" /\ x.f = "count" /\ ~x.d /\ x.a.e = "var" /\ x.a.x = cs[1].paths[1].start.x)
+CountMinTable(G, q) ==
+    LET ls == q.parts[1].clauses[1].paths[1].start.labels
+        cnt(lb) == Cardinality({h \in LiveN(G) : lb \in G.nodes[h].labels})
+        m == CHOOSE m \in {cnt(ls[i]) : i \in DOMAIN ls} : \A i \in DOMAIN ls : m <= cnt(ls[i])
+    IN OkT([o \in {<<VInt(m)>>} |-> 1])
 Poss(G, q, D) ==
-    IF Len(q.parts) = 1 THEN PartPoss(G, q.parts[1], D)
+    IF "KF_C01_MultiLabelCountMin" \in D /\ CountMinShape(q) THEN {CountMinTable(G, q)}
+    ELSE IF Len(q.parts) = 1 THEN PartPoss(G, q.parts[1], D)
     ELSE IF q.all THEN UnionPoss(G, q, 1, D)
-    ELSE {IF T.err THEN T ELSE OkT([o \in SeqReps(DOMAIN T.bag) |-> 1]) : T \in UnionPoss(G, q, 1, D)}
+    ELSE {IF T.err THEN T ELSE OkT([o \in SeqReps(DOMAIN T.bag, "KF_C01_KeysCompareStructurally" \in D) |-> 1]) : T \in UnionPoss(G, q, 1, D)}
 
 \* ------------------------------------------------------------------ acceptance of an observed outcome
 \* out = [res |-> "ok"|"err"|"panic", cols, ord |-> BOOLEAN, rows |-> <<[r |-> <<values>>, m |-> count]>>]
